@@ -228,6 +228,10 @@ def audit(form, xform, api_default_language=None):
             if ref is None:
                 if list_needs_itext and langs:
                     probs.append(f"search() select {row['name']} item {idx} ({crow.get('name')}): label in-lined although the list is translated (cells {cells})")
+                else:
+                    want = cells.get(None, cells.get(dl))
+                    if want is not None and text_of(lab) != norm_cell(want):      # whatever the question itself shows (it may have a hint only)
+                        probs.append(f"search() select {row['name']} item {idx} ({crow.get('name')}): in-line label {text_of(lab)!r}, the cell says {want!r}")
                 continue
             tid = re.match(r"jr:itext\('(.*)'\)", ref).group(1)
             for l in langs:
